@@ -124,7 +124,9 @@ CLAIM = {
             "(tied to the real functions by an exact differential run): termIdx_total_on_occurrences (the .unwrap() cannot fail for a terminal "
             "that occurs), termIdx_inj_on_behaviour (same number iff same text, kinds that behave alike - \"..\" and /../ alike, '..' distinct - "
             "and same lookahead), termIdx_raw_vs_regex, termIdx_range, scanner_number_eq_termIdx (the number the scanner and the terminal-name "
-            "table give to the i-th ordered terminal is the number of every occurrence it represents), orderedTerminals_distinct. That the "
+            "table give to the i-th ordered terminal is the number of every occurrence it represents), orderedTerminals_distinct; "
+            "checkProds_sound / table_numbers_inj (in a description accepted by the production-table part of the oracle two occurrences carry "
+            "the same number iff they behave alike). That the "
             "generated PARTS use this numbering is validated per explored grammar by the Lean oracle tid-check3 on three independently decoded "
             "descriptions (generated source text, export model, analysis objects): production table position by position, terminal-name count, "
             "scanner modes (numbers, expanded texts, lookaheads, order), %on transitions and %skip lists against the PAR directives, scanning "
